@@ -29,6 +29,7 @@ pub mod c02_jumps;
 pub mod qk;
 pub mod c04_action;
 pub mod c04_map;
+pub mod c09_kernels;
 pub mod c13_merge;
 pub mod c18_desc;
 pub mod c18_names;
@@ -39,6 +40,7 @@ pub fn all() -> Vec<(&'static str, fn())> {
 	v.extend_from_slice(c02_jumps::LIST);
 	v.extend_from_slice(c04_action::LIST);
 	v.extend_from_slice(c04_map::LIST);
+	v.extend_from_slice(c09_kernels::LIST);
 	v.extend_from_slice(c13_merge::LIST);
 	v.extend_from_slice(c18_desc::LIST);
 	v.extend_from_slice(c18_names::LIST);
